@@ -87,6 +87,16 @@ CHECKS["C16"] = dict(
     design="DESIGN.md §5 C16",
     technique="Coq proof (stable insertion sort: permutation/sortedness/stability; field arithmetic over Q) + differential correspondence on parsed stdout")
 
+CHECKS["C15"] = dict(
+    text=("Theorem over the model of DecayChainViewer's node/edge calls with the process-wide counter: the graph is the root "
+          "node plus, for the i-th decay line in depth-first order, exactly one node dec(k+i) with that line's daughters in "
+          "order and exactly one edge into it labelled with its branching fraction, from the root or from a port of an earlier "
+          "node of the same graph; nothing else; ids distinct within a graph and across consecutive graphs of a session; "
+          "counter advanced by the number of lines. Unbounded in shape. Executed only: Graphviz acceptance (dot -Tcanon) of "
+          "every DOT source; text<->structure parsing of the DOT output."),
+    design="DESIGN.md §5 C15",
+    technique="Coq proof (nested induction over chain dictionaries with a counter-threading invariant) + differential correspondence on parsed DOT + dot execution")
+
 NOT_YET = {
 }
 
